@@ -131,7 +131,27 @@ def batches(ctx):
 
     SENTINEL = 1 << 300     # stands for "the call raised": the model never returns it
 
+    # elements need only support ==: in every second case the numbers stand for arbitrary Python values
+    EX = [0, None, "", (), "a", 2.5, ("x", 1), frozenset(), b"", -1, 10 ** 20, "None"]
+
+    def ex(c, x):
+        return EX[x] if c["mask"] % 2 == 1 and x < len(EX) else x
+
+    def unex(c, y):
+        if c["mask"] % 2 == 1:
+            for i, e in enumerate(EX):
+                if type(e) is type(y) and e == y:
+                    return i
+        return y
+
     def impl_m(c):
+        c = dict(c, parent=[ex(c, x) for x in c["parent"]], child=[ex(c, x) for x in c["child"]], _orig=c)
+        r = impl_m0(c)
+        if r["from_mask"] is not None:
+            r["from_mask"] = [unex(c, y) for y in r["from_mask"]]
+        return r
+
+    def impl_m0(c):
         # history independence: the very list object handed to the functions was used before, in another
         # order, and re-ordered in place (every third case); answers must depend on its content now
         parent = list(c["parent"])
